@@ -575,13 +575,7 @@ VO = "src/vector/operations.rs"
 seed("c15-dot-misaligned", "C15", VFN, "            result += self.vec[i] * w.vec[i];\n        }\n        result\n    }\n\n    /// Return the sum of all", "            result += self.vec[i] * w.vec[ self.size() - 1 - i ];\n        }\n        result\n    }\n\n    /// Return the sum of all", "dot")
 seed("c15-product-slice-from-start", "C15", VFN, "        for i in start+1..=end {\n            result *= self.vec[i].clone();", "        for i in start..=end {\n            result *= self.vec[i].clone();", "slices/product_slice")
 seed("c15-push-front-push", "C15", VO, "        self.vec.insert( 0, elem );", "        self.vec.push( elem );", "edit/push_front")
-seed("c15-norm-inf-noabs", "C15", VF, """        let mut result = self.vec[0].abs();
-        for i in 1..self.size() {
-            if result < self.vec[i].abs() {
-                result = self.vec[i].abs();""", """        let mut result = self.vec[0].abs();
-        for i in 1..self.size() {
-            if result < self.vec[i] {
-                result = self.vec[i];""", "abs-norms/norm_inf")
+seed("c15-norm-inf-noabs", "C15", VF, "            let a = self.vec[i].abs();\n            if a.is_nan() || result < a {", "            let a = self.vec[i];\n            if a.is_nan() || result < a {", "abs-norms/norm_inf")
 seed("c15-sub-swapped", "C15", VA, "            result.push( self.vec[i] - minus.vec[i] );", "            result.push( minus.vec[i] - self.vec[i] );", "elementwise-polarity")
 seed("c15-subassign-adds", "C15", VA, "            self.vec[i] -= rhs.vec[i].clone();", "            self.vec[i] += rhs.vec[i].clone();", "elementwise-polarity")
 seed("c15-div-range", "C15", VA, """        for i in 0..self.size() {
@@ -720,3 +714,5 @@ seed("c15-norm-inf-from-first", "C15", "src/vector/vec_f64.rs", "        let mut
 seed("c17-norm-inf-nan-skipped", "C17", "src/vector/vec_f64.rs", "            if a.is_nan() || result < a {", "            if result < a {", "residual-norm/f64", "the original defect")
 seed("c17-norm-inf-nan-skipped-cmplx", "C17", "src/vector/vec_cmplx.rs", "            if a.is_nan() || result < a {", "            if result < a {", "residual-norm/Cmplx", "the original defect")
 seed("c15-norm-inf-nan-wrong-operand", "C15", "src/vector/vec_f64.rs", "            if a.is_nan() || result < a {", "            if result.is_nan() || result < a {", "abs-norms/norm_inf/f64", "tests the accumulator, not the candidate: a NaN candidate is still skipped")
+seed("c04-zero-pivot-unguarded", "C04", BD, "                dum = if au[(k, 0)] == T::zero() { T::zero() } else { au[(i, 0)] / au[(k, 0)] };", "                dum = au[(i, 0)] / au[(k, 0)];", "zero-pivot/decompose", "the original defect")
+seed("c04-zero-pivot-guard-wrong-element", "C04", BD, "                dum = if au[(k, 0)] == T::zero() { T::zero() } else { au[(i, 0)] / au[(k, 0)] };", "                dum = if au[(i, 0)] == T::zero() { T::zero() } else { au[(i, 0)] / au[(k, 0)] };", "zero-pivot/decompose", "tests the numerator")
